@@ -115,7 +115,8 @@ class TreeGen:
         """Apply one random edit in place; returns its name (or None if not applicable)."""
         rng = self.rng
         k = kind or rng.choice(["add", "add", "modify", "modify", "exec", "rename", "move", "remove", "kind",
-                                "swap", "replace", "chain", "dirrename", "moveout", "retarget", "nest", "emptyout"])
+                                "swap", "replace", "chain", "dirrename", "moveout", "retarget", "nest", "emptyout",
+                                "renexec", "renexec"])
         ents = list(inv)
         files = [e for e in ents if e[3] == "f"]
         if k == "add":
@@ -157,6 +158,16 @@ class TreeGen:
         if k == "modify" and files:
             e = rng.choice(files)
             e[4] = self.s(rng.choice([t for t in TEXTS if self.s(t) != e[4]]))
+            return k
+        if k == "renexec" and files:
+            # rename (or move) a file and flip its executable bit, content untouched, in ONE commit
+            e = rng.choice(files)
+            tgt = [d for d in self.dirs(inv)] if rng.random() < 0.3 else [e[1]]
+            par = rng.choice(tgt)
+            nm = self.free_name(inv, par)
+            if nm is None:
+                return None
+            e[1], e[2], e[5] = par, nm, 1 - e[5]
             return k
         if k == "exec" and files:
             e = rng.choice(files)
@@ -300,10 +311,25 @@ def gen_case(rng, n=None, focus=None, plain=None, nasty=0.25, nnames=None, linea
                      "ts4": ts4, "tz": tz, "msg": s(rng.choice(MSGS))})
     tags = []
     tagpool = TAGS if use_nasty else TAGS[:GOOD_TAGS]
-    for _ in range(rng.choice([0, 1, 2, 3])):
+    # revisions in the tip's ancestry that are NOT on its left-hand history (merged side branches)
+    anc, todo = set(), [n - 1]
+    while todo:
+        r = todo.pop()
+        if r not in anc:
+            anc.add(r)
+            todo.extend(revs[r]["parents"])
+    main, r = set(), n - 1
+    while r is not None:
+        main.add(r)
+        r = revs[r]["parents"][0] if revs[r]["parents"] else None
+    side = sorted(anc - main)
+    for _ in range(rng.choice([0, 1, 2, 3]) if not side else rng.choice([1, 2, 3])):
         t = s(rng.choice(tagpool))
         if t not in [x[0] for x in tags]:
-            tags.append([t, rng.randrange(n) if rng.random() < 0.9 else -1])
+            if side and rng.random() < 0.6:
+                tags.append([t, rng.choice(side)])
+            else:
+                tags.append([t, rng.randrange(n) if rng.random() < 0.9 else -1])
     if plain is None:
         plain = 1 if rng.random() < 0.8 else 0
     return {"plain": plain, "rewrite": int(rng.random() < 0.4), "no_tags": int(rng.random() < 0.1),
